@@ -812,15 +812,22 @@ def Array(
         @classmethod
         def encode(cls, values: List[Any], length: Optional[int] = None) -> bytes:
             _length = length or cls.length
+            try:
+                _num_values = len(values)
+            except TypeError as err:
+                raise DataError(
+                    f"Error packing {reprlib.repr(values)} into {cls.element_type}[{_length}]"
+                ) from err
+
             if isinstance(_length, int):
-                if len(values) < _length:
+                if _num_values < _length:
                     raise DataError(
                         f"Not enough values to encode array of {cls.element_type}[{_length}]"
                     )
 
                 _len = _length
             else:
-                _len = len(values)
+                _len = _num_values
 
             try:
                 if _is_bit_array(cls.element_type):
